@@ -49,11 +49,17 @@ theorem candidates_order (fs : FS) (c : PutCfg) (volume : Bytes) (h : c.trashDir
     rcases h with h | h <;> rw [h] <;> simp only [ne_eq, not_true_eq_false, if_false]
 
 theorem gate_same_volume (fs : FS) (c : PutCfg) (volume : Bytes) (cand : Candidate) (hg : cand.gate = .sameVolume) :
-    gateCheck fs c volume cand = none ↔ volumeOf fs c.cwd (realpathStr fs c.cwd (normpath cand.path)) = volume := by
+    gateCheck fs c volume cand = none ↔ volumeOf fs c.cwd (realpathStr fs c.cwd cand.path) = volume := by
   unfold gateCheck
   rw [hg]
   simp only
   split <;> simp [*]
+
+/-- the gate looks at the volume of the trash directory the kernel reaches from the path AS SPELLED
+    (`TrashDirVolumeReader.volume_of_trash_dir`: `realpath(path)`, no `os.path.normpath` first) -/
+theorem gate_reads_named_trash_dir (fs : FS) (c : PutCfg) (volume : Bytes) (cand : Candidate) (hg : cand.gate = .sameVolume) :
+    gateCheck fs c volume cand = none ↔ volumeOf fs c.cwd (realpathStr fs c.cwd cand.path) = volume :=
+  gate_same_volume fs c volume cand hg
 
 theorem fallback_gate_iff (fs : FS) (c : PutCfg) (volume : Bytes) (cand : Candidate) (hg : cand.gate = .homeFallback) :
     gateCheck fs c volume cand = none ↔ c.env.fallbackEnv = some (b "1") := by
@@ -684,5 +690,49 @@ theorem hyps_fresh :
   simp only [danglingOnPath_eq, dirC_eq]; decide +kernel
 
 end Ex
+
+/-! the same-volume gate and a trash directory spelled through a link: a two-volume world -/
+
+namespace NamedEx
+open TrashVerif.Proofs.C16Eval
+
+def dN : Node := .dir 0o755 0
+/-- two volumes, `/` and `/v`; `/v/jump -> /v/deep/inner`; the trash directory `/v/ct` -/
+def W : FS := FS.ofList
+  [([], dN), ([b "v"], dN), ([b "v", b "deep"], dN), ([b "v", b "deep", b "inner"], dN),
+   ([b "v", b "jump"], .link (b "/v/deep/inner")), ([b "v", b "ct"], dN), ([b "v", b "x"], .file [120] 0o644 0)]
+  [[], [b "v"]]
+def cfg : PutCfg := { cwd := [], env := {}, uid := 0, dateStr := b "D" }
+/-- `--trash-dir /v/jump/../../ct` -/
+def cand : Candidate :=
+  { path := b "/v/jump/../../ct", volume := b "/v", relative := true, topCheck := false, gate := .sameVolume }
+
+/-- The kernel follows `/v/jump` to `/v/deep/inner`, goes up twice and names `/v/ct`, on the volume
+    `/v`: the gate accepts a file of the volume `/v` (and refuses one of `/`).  The textual collapse
+    `normpath "/v/jump/../../ct"` = "/ct" lies on `/`: with `normpath` applied first (the code before
+    the fix) the gate refused the file of `/v` and accepted one of `/`. -/
+theorem named_gate :
+    realpathStr W cfg.cwd cand.path = b "/v/ct" ∧
+    volumeOf W cfg.cwd (realpathStr W cfg.cwd cand.path) = b "/v" ∧
+    gateCheck W cfg (b "/v") cand = none ∧
+    gateCheck W cfg (b "/") cand = some .differentVolumes ∧
+    normpath cand.path = b "/ct" ∧
+    volumeOf W cfg.cwd (realpathStr W cfg.cwd (normpath cand.path)) = b "/" ∧
+    gateCheck W cfg (b "/v") { cand with path := normpath cand.path } = some .differentVolumes ∧
+    gateCheck W cfg (b "/") { cand with path := normpath cand.path } = none := by
+  simp only [gateCheck_eq, volumeOf_eq, realpathStr_eq]
+  decide +kernel
+
+/-- the statement of `gate_same_volume` as it read before the fix (with `normpath cand.path`) is false now -/
+theorem former_statement_false :
+    ¬ (∀ (fs : FS) (c : PutCfg) (volume : Bytes) (cand : Candidate), cand.gate = .sameVolume →
+        (gateCheck fs c volume cand = none ↔
+          volumeOf fs c.cwd (realpathStr fs c.cwd (normpath cand.path)) = volume)) := by
+  intro h
+  have h1 := (h W cfg (b "/v") cand rfl).1 named_gate.2.2.1
+  rw [named_gate.2.2.2.2.2.1] at h1
+  exact absurd h1 (by decide +kernel)
+
+end NamedEx
 
 end TrashVerif.Proofs.C07
